@@ -11,32 +11,29 @@ NOTE_COMMON = ("Trusted: Lean 4.33.0 kernel; axioms propext / Quot.sound / Class
 
 CHECKS = {
  "C01": ("proof", "5.1",
-   "Theorems: the specification Selects is functional and decided by the executable oracle (spec_functional, oracle_decides). The model mirrors compiler.hpp / core.hpp stage by stage; "
-   "on every run every table, slot, word of dispatch_data and every call outcome of ~1200 generated registries (all 12 signature shapes, 8 policy configurations, 5 presentation styles) "
-   "must be equal between the real update/call and the model, and the real calls equal to the specification oracle. PARTIAL: the end-to-end theorem M.call (M.update reg) = select reg is not yet closed; "
-   "its parts proved so far are best (C03), lattice slot disjointness (C04), hash perfection (C05), cell counting (C17).",
-   "proof of the specification layer + differential correspondence of the whole pipeline"),
- "C02": ("proof", "5.2", "Theorems on the model: the error payload holds the dynamic ids of exactly the virtual arguments in order (errorTypes_*), the status distinguishes no-candidate from several-candidates (status_of_cell), an error cell never runs a definition. "
-   "Correspondence: status/arity/types of every erroring call under vectored, throwing and deprecated handlers, further calls after a thrown error, SIGABRT when the handler returns (forked child).",
-   "proof on the model of handlers/payload + differential correspondence incl. abort behaviour"),
+   "Theorem C01_C02_call_after_update (Lean, no sorry, axioms propext/Classical.choice/Quot.sound): for every policy flavour (vector, fast hash, checked hash, map), every registry without inheritance cycles whose ids are machine words, every registered method (any arity, any placement of non-virtual parameters) and every tuple of registered classes acceptable for its virtual parameters passed by reference: after an update that succeeded, the model's call looks up the published v-table pointers, walks the installed dispatch data and runs exactly the definition the specification Selects for the classes' keys - the one more specific than every other applicable one - or raises the prescribed resolution error. It composes: covariant sets = Derives (cov_iff_derives), table cell = Selects (dispatch_table_correct), slot allocation exclusive for trees, lattices and mixtures (assignSlots_exclusive / compile_slots_exclusive), v-table content (vtbl_entry), flattening (install_spec), the walk (resolve_correct), publication of v-table pointers (lookup_published, using the hash-search theorems of C05). The specification is functional and decided by the executable oracle (spec_functional, oracle_decides). Tie to the code: on every run every table, slot, word of dispatch_data and every call outcome of ~1200 generated registries (12 signature shapes, 8 policy configurations, 5 presentation styles, some registered in two instalments with an update after each) must be equal between the real update/call and the model, and the real calls equal to the specification oracle. Not covered by the theorem: virtual_ptr arguments (C09), how C++ objects yield type ids (C10/C11).",
+   "end-to-end proof on the model (update -> call = specification) + differential correspondence of the whole pipeline"),
+ "C02": ("proof", "5.2",
+   "Theorems: C02_unresolvable_calls_are_reported (corollary of the end-to-end theorem C01_C02_call_after_update): after a successful update, whenever the specification finds no applicable definition, or no applicable definition more specific than all the others, the model's call runs nothing and raises a resolution error whose status tells the two cases apart, whose arity is the number of virtual parameters and whose type ids are the dynamic types of exactly the virtual arguments in order - for every policy flavour, arity and placement of non-virtual parameters. Also: errorTypes_* (payload), status_of_cell, an error cell never runs a definition. Correspondence: status/arity/types of every erroring call under vectored, throwing and deprecated handlers, further calls after a thrown error, SIGABRT when the handler returns (forked child).",
+   "end-to-end proof on the model + differential correspondence incl. handler and abort behaviour"),
  "C03": ("proof", "5.3", "Theorems: best returns a single definition iff it dominates all other candidates, and is empty only for no candidates (best_of_dominates, dominates_of_best, best_nil_iff), for any asymmetric specificity relation. "
    "Correspondence: every definition's next cell after every update and next chains followed from inside definitions; the spec oracle nextB recomputes them from the registry.",
    "proof of best() + differential correspondence of next cells and chains"),
- "C04": ("proof", "5.4", "Theorems: the lattice allocator never gives one slot to two parameters sharing a descendant, for any allocation order, given transitively complete base lists (lattice_slots_disjoint via Lattice.allocAll_disjoint); every successful read of a call lies inside the words this update wrote and calls jump only through function-tagged words of the same method (read_in_bounds, call_runs_only_functions). "
-   "Correspondence: slots, first slots, v-table entries, dispatch_data layout; ASan on the real walk; the statement of C04 re-evaluated on every dump of the implementation. PARTIAL: tree allocation and the link DFS-order -> allocAll are checked per input, not yet proved.",
-   "invariant proof of the slot allocator + differential correspondence + sanitizers"),
- "C05": ("proof", "5.5", "Theorems, for every index function (multiplier, shift), every id lists, every initial hash_min/max: a successful attempt puts every registered id in its own bucket below hash_max+1 holding the id itself (found_is_perfect), buckets otherwise hold the sentinel so an unregistered id (other than the reserved 2^64-1) is nowhere in the table (unregistered_not_in_buckets), and the checked lookup accepts only an id stored at its index (checked_accepts_only_stored). "
-   "Correspondence: multiplier, shift, length, min, max, control, vptrs over id families, sizes 0-300 (2000 thorough), growing/shrinking update histories, exhausted budgets through the hook.",
-   "fold-invariant proof of the hash search + differential correspondence with the implementation's own multiplier stream"),
+ "C04": ("proof", "5.4",
+   "Theorems: compile_slots_exclusive - after update on any registry without inheritance cycles (trees, lattices, several roots, any mixture, any presentation of the base lists), two different (method, virtual parameter) pairs whose parameter classes both cover a class never share a slot (invariant SInvK kept by assign_tree_slots by windows stacked along the ancestor chain, by assign_lattice_slots via the used/reserved bit sets, across roots by a visited-set argument); vtbl_entry - the v-table of every class acceptable for a parameter holds at that slot the entry (method, parameter, group of the class), whatever else was written; C01_update_then_call - the walk of a legal call succeeds, hence (read_in_bounds) every word it reads lies inside the words this update wrote; call_runs_only_functions - a call jumps only through a function-tagged word of the same method. Correspondence: slots, first slots, v-table entries, dispatch_data size and layout; ASan + UBSan on the real update and walk (a crash or abort of the real code where the model completes is reported as the failing input); the statement of C04 re-evaluated on every dump. PARTIAL: that compile/install themselves never fault (writes of update in range) is established per input by the correspondence, not yet as a theorem.",
+   "invariant proof of both slot allocators and of the v-table content + differential correspondence + sanitizers"),
+ "C05": ("proof", "5.5",
+   "Theorems, for every multiplier stream, id lists, initial hash_min/max and budget: if the search returns found, every registered id has its own index below the installed length and its bucket holds the id (C05_installed_hash_is_perfect), no unregistered id is in any bucket (C05_buckets_hold_only_registered), and the checked lookup rejects every unregistered id (C05_checked_rejects_unregistered; the reserved all-ones id excluded); lookup_published - after a successful publish_vptrs every id registered for class c is found and yields the entry this update wrote for c, for the plain vector, the fast hash, the checked hash and the map. Correspondence: multiplier, shift, length, min, max, control, vptrs over id families, sizes 0-300 (2000 thorough), growing/shrinking update histories, exhausted budgets through the hook; a direct lookup battery of registered and formerly registered ids.",
+   "fold-invariant proof of the hash search and of publication + differential correspondence with the implementation's own multiplier stream"),
  "C06": ("proof", "5.6", "Theorems (specification level): the selected definition, the not-implemented outcome, applicability and specificity depend only on the sets of class records and definitions (C06_selected_perm, C06_not_implemented_perm). "
    "Correspondence: each registry in 4 registration orders; observables must be equal across orders and each order equal to the model. Model-level order independence follows from C01 once closed (partial).",
    "proof on the specification + permutation differential testing"),
  "C07": ("proof", "5.7", "Theorems: a completed update installs exactly what a fresh compile+install of the current catalogs produces, independently of every persistent table (update_installs_fresh, tables_depend_on_catalogs_only); removed definitions are gone from the catalog, added ones present. "
    "Correspondence: random load/unload histories under 9 flavours incl. deferred ids, each compared with the model and with a fresh process holding the surviving registrations.",
    "refinement-style proof on the state machine + history differential testing"),
- "C08": ("proof", "5.8", "Theorems (specification level): every outcome and the next candidates depend on the registry only through Derives (C08_selects_congr, C08_moreGeneral_congr); listing a derivable base redundantly leaves Derives unchanged (redundant_base_same_graph). "
-   "Correspondence: each graph under 5 presentations (complete, direct-only, supersets with duplicates, split records, without self), equal observables and exact agreement with the model; shared-cell check of C04 on each.",
-   "proof on the specification + presentation differential testing"),
+ "C08": ("proof", "5.8",
+   "Theorems: every outcome and the next candidates depend on the registry only through Derives (C08_selects_congr, C08_moreGeneral_congr); listing a derivable base redundantly leaves Derives unchanged; the model infers the inheritance relation from any presentation (model_infers_inheritance = cov_iff_derives), transitive_bases are complete for every presentation (graph_complete), hence by the end-to-end theorem of C01 and compile_slots_exclusive the dispatch result and the exclusivity of v-table cells hold for every presentation and record order. Correspondence: each graph under 5 presentations (complete, direct-only, supersets with duplicates, split records, without self), each also with the records in random order (derived classes before their bases), equal observables and exact agreement with the model.",
+   "proof on specification and model + presentation / record-order differential testing"),
  "C09": ("proof", "5.9", "Theorems on the model of virtual_ptr: a pointer made from a reference dereferences to what a plain reference lookup yields (deref_new_direct), copies dereference like the original, indirect pointers read the class's static cell in the state of the call and so survive updates (indirect_survives_update), direct ones fault after the next update. "
    "Correspondence: construction routes (base reference, exact static type, final, copy, move) under 8 policies, each call made through references and through virtual_ptrs, updates in between. PARTIAL: smart-pointer flavours are template glue, observed only by H-prog.",
    "proof on the pointer model + route differential testing"),
@@ -46,9 +43,9 @@ CHECKS = {
    "proof of the positional layout + text differential testing"),
  "C13": ("proof", "5.13", "Theorems: initialisers fit their extents, the stop bit marks exactly the last code, fetch faults rather than misreads once the write cursor has passed a code, writes stay inside vtbls[D]. Correspondence: the real encoder's text parsed and laid out in a heap block of the emitted struct's exact layout (ASan both ends), decoded in place by the real decoder; extents, streams, decoded words, v-table pointers and calls compared with the model and with the calls after update. PARTIAL: the round-trip theorem decode(encode) ~ install is not yet closed.",
    "proof of encoder/decoder guards + round-trip differential testing under ASan"),
- "C14": ("proof", "5.14", "Theorem: an operation on policy k leaves the whole state of every other policy unchanged, for any interleaving (frame, frame_seq, calls_unchanged). Correspondence: policies obtained by rebind sharing class ids, interleaved registrations/updates/calls, dumps of the watched policy before and after. PARTIAL: that template instantiation gives each key its own statics is observed, not proved.",
+ "C14": ("proof", "5.14", "Theorem: an operation on policy k leaves the whole state of every other policy unchanged, for any interleaving (frame, frame_seq, calls_unchanged). Correspondence: policies obtained by rebind sharing class ids, interleaved registrations/updates/calls (including virtual_ptr made from the class's static v-table pointer cell and final), dumps of the watched policy before and after. PARTIAL: that template instantiation gives each key its own statics is observed, not proved.",
    "frame proof on the multi-policy model + interleaving differential testing"),
- "C15": ("proof", "5.15", "Theorems: under the checked hash an id absent from the control table is reported as unknown_class on the reference route, the virtual_ptr route and the exact-static-type route (lookup_unknown, mkVPtr_unknown, mkVPtr_exact_unknown); final with another dynamic type is a method_table error; unknown parameter classes and listed bases are reported by update (resolveIds_unknown, buildGraph_unknown_base). Correspondence: one id left out at every place and route.",
+ "C15": ("proof", "5.15", "Theorems: under the checked hash an id absent from the control table is reported as unknown_class on the reference route, the virtual_ptr route and the exact-static-type route (lookup_unknown, mkVPtr_unknown, mkVPtr_exact_unknown); final with another dynamic type is a method_table error; unknown parameter classes and listed bases are reported by update (resolveIds_unknown, buildGraph_unknown_base). Correspondence: one id left out at every place and route, and classes registered for one update and gone at the next (unknown with respect to the current tables on every route).",
    "proof on the checked lookup model + placement differential testing"),
  "C17": ("proof", "5.17", "Theorems: per-method counters count cells of each kind, a flag is raised iff such a cell exists, the aggregated report counts the methods raising each flag, cells equals the number of multi-method cells built (= product of group counts). Correspondence: exact per-method and aggregated reports with random abstract flags. PARTIAL: cell <-> class-tuple correspondence is part of the C01 chain.",
    "proof of the report arithmetic + differential correspondence"),
@@ -56,11 +53,11 @@ CHECKS = {
    "refinement proof by induction over histories + exhaustive small-scope differential testing"),
  "C19": ("proof", "5.19", "Theorems: extracted names pass every filter (no keyword, no std::/yorel::, no template name), every fundamental token is in the keyword table re-extracted from the source, the name set is a set. Correspondence: text of the forward declarations for random name sets and grammar-generated type descriptions, character for character; the output is parsed for balance and compared with the requested set. PARTIAL: the writer's balance theorem is not yet closed.",
    "proof of the extraction filters + text differential testing"),
- "C11": ("proof", "5.11", "PARTIAL by nature. Theorems on the thunk's selection logic: parameter i is computed from argument i only, arity preserved, dynamic_cast chosen exactly when a virtual base makes static_cast ill formed, rvalues and references never copied. The decider is the generated-program check: per inheritance shape (single, non-zero offset, virtual base, several levels, virtual + levels) a program instantiates every virtual parameter kind at two positions and every non-virtual category, and compares inside the definitions the address as the definition's class, the most-derived address, shared ownership and copy/move counters with the caller's. One open known finding (by-value parameters are moved more than once).",
+ "C11": ("proof", "5.11", "PARTIAL by nature. Theorems on the thunk's selection logic: parameter i is computed from argument i only, arity preserved, dynamic_cast chosen exactly when a virtual base makes static_cast ill formed, rvalues and references never copied. The decider is the generated-program check: per inheritance shape (single, non-zero offset, virtual base, several levels, virtual + levels) a program instantiates every virtual parameter kind at two positions and every non-virtual category, (and one program sends objects of four most derived classes with different layouts in turn through definitions on an intermediate class with a virtual base), and compares inside the definitions the address as the definition's class, the most-derived address, shared ownership and copy/move counters with the caller's. One open known finding (by-value parameters are moved more than once).",
    "proof of the selection logic + generated-program translation validation"),
- "C16": ("proof", "5.16", "PARTIAL by nature. Theorems: for every schedule in which other threads only operate on other policies every call returns its sequential result (C16_any_schedule, per_thread; uses the frame theorem of C14); accesses that are reads of shared state or touch thread-owned locations never conflict (no_conflict). Tie to the source, re-checked by the kernel on every run: the write-effect table of the instantiated call path extracted from clang's AST contains only writes to locals, to the object under construction, and map operator[] (callpath_effects_allowed). Support: TSan harness, 9-33 threads x 4 policies x every route with a concurrent update of a fifth policy; TSan reports and per-thread results.",
+ "C16": ("proof", "5.16", "PARTIAL by nature. Theorems: for every schedule in which other threads only operate on other policies every call returns its sequential result (C16_any_schedule, per_thread; uses the frame theorem of C14); accesses that are reads of shared state or touch thread-owned locations never conflict (no_conflict). Tie to the source, re-checked by the kernel on every run: the write-effect table of the instantiated call path extracted from clang's AST contains only writes to locals, to the object under construction, and map operator[] (callpath_effects_allowed). Support: TSan harness, 9-33 threads x 5 policies x every route with concurrent updates of two other policies, one obtained by rebind from a policy in use whose stateful facet carries a non-default template argument (re-keying checked); TSan reports and per-thread results.",
    "schedule-independence proof + AST effect table obligation + TSan"),
- "C20": ("proof", "5.20", "Theorems (complete on the model): product membership and length, aggregate/flatten identity for every size and threshold, leaves bounded by the threshold (termination of the template recursion), registered = product filtered by defined (C20_registered, C20_not_defined). Tie: generated programs (sizes 1..7 per list and products on both sides of the 512 split, random not_defined subsets) print the compile-time product, the definitions found in the method's catalog and the result of dispatching through every combination; the model predicts all three. PARTIAL: the model of mp11 is hand-written.",
+ "C20": ("proof", "5.20", "Theorems (complete on the model): product membership and length, aggregate/flatten identity for every size and threshold, leaves bounded by the threshold (termination of the template recursion), registered = product filtered by defined (C20_registered, C20_not_defined). Tie: generated programs (sizes 1..7 per list and products on both sides of the 512 split, random not_defined subsets) print the compile-time product, the definitions found in the method's catalog and the result of dispatching through every combination; the model predicts all three; aggregate alone over n trivial elements, n around every level of the split (odd and even), counts constructions per element. PARTIAL: the model of mp11 is hand-written.",
    "proof on the template model + generated-program translation validation"),
 }
 
